@@ -219,7 +219,9 @@ def run_scenario(task):
                     cenv, err = _conc_run(scn, level, rec)
                     failed = [o for o in cenv.obligations if o.label == ob.label and not o.cond]
                     if ob.label.startswith('library_raised.'):
-                        if err and err.startswith('exception: %s' % ob.label.split('.', 1)[1]):
+                        # only a crash of the *real* library (real generator, estimators, joblib) counts: at level 2 the
+                        # exception could be an artefact of a scripted stand-in
+                        if level == 1 and err and err.startswith('exception: %s' % ob.label.split('.', 1)[1]):
                             rec['level'] = level
                             rec['crash'] = err
                             return level, rec
